@@ -597,7 +597,11 @@ func (c *Client) negotiateVersion(ctx context.Context) error {
 	if err := bi.Err(); err != nil {
 		return err
 	}
-	serverVersions := bi.ResponsePayload.(*payloads.DiscoverVersionsResponsePayload).ProtocolVersion
+	discoverResp, ok := bi.ResponsePayload.(*payloads.DiscoverVersionsResponsePayload)
+	if !ok {
+		return fmt.Errorf("Protocol version negotiation failed. Unexpected response payload type %T", bi.ResponsePayload)
+	}
+	serverVersions := discoverResp.ProtocolVersion
 	// Adopt the highest version that is both advertised by the server and supported by the client,
 	// whatever the order of the server's list and whatever else it contains.
 	var best *kmip.ProtocolVersion
@@ -682,6 +686,19 @@ func (c *Client) BatchOpt(ctx context.Context, payloads []kmip.OperationPayload,
 	if int(resp.Header.BatchCount) != len(resp.BatchItem) || len(resp.BatchItem) != len(payloads) {
 		return nil, errors.New("Batch count mismatch")
 	}
+	// A successful item must answer the operation that was requested and carry its payload
+	for i := range resp.BatchItem {
+		bi := &resp.BatchItem[i]
+		if bi.ResultStatus != kmip.ResultStatusSuccess {
+			continue
+		}
+		if bi.Operation != payloads[i].Operation() {
+			return nil, fmt.Errorf("Unexpected operation %q in response batch item %d (wants %q)", ttlv.EnumStr(bi.Operation), i, ttlv.EnumStr(payloads[i].Operation()))
+		}
+		if bi.ResponsePayload == nil {
+			return nil, fmt.Errorf("Missing response payload in batch item %d", i)
+		}
+	}
 	return resp.BatchItem, nil
 }
 
@@ -731,7 +748,12 @@ func (ex Executor[Req, Resp]) ExecContext(ctx context.Context) (Resp, error) {
 		var zero Resp
 		return zero, err
 	}
-	return resp.(Resp), nil
+	typedResp, ok := resp.(Resp)
+	if !ok {
+		var zero Resp
+		return zero, fmt.Errorf("Unexpected response payload type %T", resp)
+	}
+	return typedResp, nil
 }
 
 // MustExec is like Exec except it panics if the request fails.
